@@ -5,6 +5,8 @@ V = os.path.dirname(os.path.dirname(os.path.abspath(__file__)))
 props = [json.loads(l) for l in open(os.path.join(V, "properties.jsonl"))]
 na_reasons = json.load(open(os.path.join(V, "checks", "not_applicable.json"))) if os.path.exists(os.path.join(V, "checks", "not_applicable.json")) else {}
 checks, claimed = [], set()
+_u = os.path.join(V, "checks", "unclaimed.txt")
+unclaimed = set(open(_u).read().split()) if os.path.exists(_u) else set()
 engines = {}
 for p in props:
     cid = p["id"]
@@ -12,7 +14,7 @@ for p in props:
     if not os.path.exists(f):
         continue
     c = json.load(open(f))
-    if c.get("claim", True) is False:
+    if c.get("claim", True) is False or cid in unclaimed:
         continue
     claimed.add(cid)
     thms = ", ".join(t.split(".")[-1] for t in c.get("required_theorems", []))
